@@ -178,8 +178,9 @@ class Body:
             if terminal:
                 break
         if need_susp and not any(('yield' in l_ or 'Susp(' in l_ or 'cosub' in l_) for l_ in out):
-            out.insert(r.randint(0, len(out)) if not out or not out[-1].lstrip().startswith(('return', 'raise')) else 0,
-                       self.susp(self.fresh()))
+            # (only at the start or the end: any other index may fall inside a compound statement)
+            at_end = bool(out) and not out[-1].lstrip().startswith(('return', 'raise')) and r.random() < .5
+            out.insert(len(out) if at_end else 0, self.susp(self.fresh()))
         return out
 
     def stmt(self, depth):
@@ -298,7 +299,7 @@ def make_source(rng, kind, plant):
                 lines[-1] = f'return {PLANT_STR_SLOT}'
                 planted = 'return'
             else:
-                top = [i for i, l_ in enumerate(lines) if not l_.startswith(' ')]
+                top = [i for i, l_ in enumerate(lines) if not l_.startswith((' ', 'except', 'finally', 'else'))]
                 lines.insert(rng.choice(top[:3]), f'yield {PLANT_INT_SLOT!r}')
                 planted = 'yield'
     if kind != 'coroutine' and not any('yield' in l_ for l_ in lines):
@@ -379,6 +380,8 @@ def op_generator(g, op):
         return ('stop', e.value)
     except BaseException as e:   # noqa
         return exc_outcome(e, thrown)
+    finally:
+        thrown = g = None     # no exception <-> frame cycle may keep the object alive
 
 
 def drive(aw, interrupt=None, thrown=None):
@@ -409,6 +412,8 @@ def drive(aw, interrupt=None, thrown=None):
         return ('stopasync', e.args, tuple(seen))
     except BaseException as e:   # noqa
         return exc_outcome(e, e if (e is thrown or e is intr) else None, (tuple(seen),))
+    finally:
+        thrown = intr = aw = None     # no exception <-> frame cycle may keep the driven object alive
 
 
 def op_asyncgen(ag, op):
@@ -420,7 +425,10 @@ def op_asyncgen(ag, op):
         return drive(ag.asend(op[1]), interrupt)
     if name == 'athrow':
         thrown = mk_exc(op[1])
-        return drive(ag.athrow(thrown), interrupt, thrown)
+        try:
+            return drive(ag.athrow(thrown), interrupt, thrown)
+        finally:
+            thrown = None
     if name == 'aclose':
         return drive(ag.aclose(), interrupt)
     raise AssertionError(op)
@@ -447,6 +455,8 @@ def op_coroutine(c, op):
         return ('stop', e.value)
     except BaseException as e:   # noqa
         return exc_outcome(e, thrown)
+    finally:
+        thrown = c = None
 
 
 APPLY = dict(generator=op_generator, asyncgen=op_asyncgen, coroutine=op_coroutine)
@@ -486,7 +496,9 @@ def gen_script(rng, kind):
             else:
                 op = ('drop',)
         elif kind == 'asyncgen':
-            intr = rng.choice(('MyErr(t,1)', 'ValueError(v)', 'GeneratorExit()', 'MyBase(b)')) if rng.random() < .12 else None
+            # (GeneratorExit is never thrown into a pending awaitable: closing the awaitable returned by an operation
+            # is not one of the operations of the property; `await` closes its delegate instead of resuming it)
+            intr = rng.choice(('MyErr(t,1)', 'ValueError(v)', 'StopAsyncIteration(sai)', 'MyBase(b)')) if rng.random() < .12 else None
             if p < .36:
                 op = ('anext', rng.random() < .3, intr)
             elif p < .58:
@@ -605,7 +617,7 @@ def main():
     gc.collect()
     gc.freeze()
     quick = W.quick
-    limit = 6000 if quick else 400000
+    limit = 16000 if quick else 400000
     nscripts = 20 if quick else 50
 
     for idx in W.cases('body', limit, frac=.92):
@@ -620,7 +632,7 @@ def main():
             continue
         confname, conf = rng.choice(CONFS)
         decorate = beartype.beartype if conf is None else beartype.beartype(conf=conf)
-        enum_mode = (idx % 8 == 0)
+        enum_mode = rng.random() < .125
         names = []
         base_w = dict(kind=kind, hint=hint, conf=confname, method=info['method'], source=src)
         try:
@@ -635,7 +647,8 @@ def main():
                 names.append(n1)
             except Exception as e:   # noqa
                 names.append(f'c08_d_{os.getpid()}_{_modseq[0]}')
-                W.violation('decoration-raised:' + kind + ':' + type(e).__name__,
+                twice = info['future'] and bool(hint) and hint.startswith("'")
+                W.violation('decoration-raised:' + kind + ':' + type(e).__name__ + (':quoted-hint-under-future-annotations' * twice),
                             f'decorating a {kind} function annotated -> {hint} raised {short(e, 300)}', 'body', idx, base_w)
                 continue
             W.count('bodies')
@@ -740,14 +753,12 @@ def run_script(W, idx, kind, hint, info, script, make_o, make_d, base_w, reporte
             obj_d[0] = None
             gc.collect()
             unr_d = take_unraisable()
-            out_o, out_d = ('dropped', unr_o), ('dropped', unr_d)
+            out_o, out_d = ('dropped',), ('dropped',)
         else:
             out_o = apply(obj_o[0], op)
             unr_o = take_unraisable()
             out_d = apply(obj_d[0], op)
             unr_d = take_unraisable()
-            if unr_o or unr_d:
-                out_o, out_d = out_o + (('unraisable', unr_o),), out_d + (('unraisable', unr_d),)
         # reach counters (from the original's behaviour)
         opn = op_name(op)
         W.add('operations', kind + ':' + opn)
@@ -803,6 +814,15 @@ def run_script(W, idx, kind, hint, info, script, make_o, make_d, base_w, reporte
             if is_return_violation(out_d) and not info['planted']:
                 report('false-return-violation:' + kind, f'operation {i} ({opn}): the decorated object raised a return '
                        f'violation for a value satisfying -> {hint}: {show_outcome(out_d)}', i, op, out_o, out_d)
+            elif delivers_generator_exit(op) and op[0] in ('throw', 'athrow') and out_d[0] == 'raise' and \
+                    out_d[1] is GeneratorExit and (out_o[0] in ('stop', 'stopasync') or
+                                                   (out_o[0] == 'raise' and out_o[1] is GeneratorExit)):
+                # explanatory key: the body swallowed the GeneratorExit thrown by the caller and finished (or raised
+                # a GeneratorExit of its own); the delegating wrapper (yield from / await / the PEP 525 loop) closes
+                # the inner object instead of throwing into it and re-raises the caller's instance
+                report('thrown-GeneratorExit-swallowed-by-body-reraised-by-wrapper:' + kind, f'operation {i} ({opn}): the body '
+                       f'caught the GeneratorExit thrown in and finished: original -> {show_outcome(out_o)}, decorated -> '
+                       f'{show_outcome(out_d)}', i, op, out_o, out_d)
             else:
                 report('outcome-differs:' + kind + ':' + opn, f'operation {i} ({opn}) of the script: original -> '
                        f'{show_outcome(out_o)}, decorated -> {show_outcome(out_d)}', i, op, out_o, out_d)
@@ -811,6 +831,15 @@ def run_script(W, idx, kind, hint, info, script, make_o, make_d, base_w, reporte
             report('side-effects-differ:' + kind + ':' + opn, f'side-effect logs differ after operation {i} ({opn}): original '
                    f'{short(log_o, 300)}, decorated {short(log_d, 300)}', i, op, out_o, out_d)
             break
+        if unr_o != unr_d:
+            W.count('unraisable_sets_differing')
+            only_sai = (kind == 'asyncgen' and op[0] == 'drop' and not unr_d and unr_o == (('StopAsyncIteration', ''),))
+            report('unraisable-StopAsyncIteration-of-original-absent:asyncgen:drop' if only_sai else
+                   'unraisable-differs:' + kind + ':' + opn, f'exceptions handed to sys.unraisablehook during operation {i} ({opn}) '
+                   f'differ: original {unr_o}, decorated {unr_d} (outcome and logs equal)', i, op, out_o, out_d)
+            break
+        if unr_o:
+            W.count('unraisable_sets_compared_nonempty')
         # state tracking (original)
         if op[0] == 'drop':
             break
@@ -820,7 +849,10 @@ def run_script(W, idx, kind, hint, info, script, make_o, make_d, base_w, reporte
         if out_o[0] in ('stop', 'stopasync', 'raise', 'closed'):
             if not (out_o[0] == 'raise' and out_o[1] is TypeError and not started_now):
                 done = True
-    obj_o[0] = obj_d[0] = None
+    # nothing of this script may be finalised during the next one
+    if obj_o[0] is not None or obj_d[0] is not None:
+        obj_o[0] = obj_d[0] = None
+        gc.collect()
     take_unraisable()
 
 
